@@ -82,6 +82,42 @@ CLAIMS = {
             'Direction truth table, governing Jie by instant (incl. births on a Jie day before/after the instant), the five exchange rates, calendar addition with chained carries, '
             'the China95 and sect-2 strategies, decade and yearly fortune affine forms: ~1,360 evaluated (birth, gender) points against the statement. The October-1582 addition defect is a listed known finding.',
             'Numeric layer replaced by oracles (C01, C05/C06, C02/C03). LunarSect1 strategy not judged.', 'DESIGN.md §3 C16'),
+    'C02': ('comparator decision tables; guards; both conversion directions evaluated (real search loop) on tiling scenario calendars; leap-table and solstice-anchor rules on the month records',
+            'Lunar before/after/== over all order types incl. a month and its leap twin (day and hour level); constructor guards; civil->lunar->civil and lunar->civil->lunar are the '
+            'identity and order preserving for every day and every lunar date of two scenario years with leap months, using the repository\'s own search loop; the stored leap table and the '
+            'solstice-month anchoring of the month records are checked as in C03/C04.',
+            'The scenario month records tile by construction; that the REAL records tile is numeric (C03). They are known not to at lunar years 8/9, 24/25, 239/240 (reform offsets) - outside this technique\'s reach, see DESIGN §5.',
+            'DESIGN.md §3 C02'),
+    'C03': ('packed-table analysis (TABLES) + real LunarMonth::new/next evaluated with the new-moon series stubbed + uniform-lunation model for the solstice anchor',
+            'The leap-month table decoded by its own initialiser: 12 columns, strictly increasing years in range, no year under two months, 2-3 year intercalation gaps outside the code\'s own reform windows, '
+            '7+-1 leap months per 19 years; leap lookup for every year -1..9999; guards and month<->position maps of LunarMonth::new/next for all 13 leap positions; "next month starts where this one ends" '
+            'stride agreement; month 1 placed 2 (3) lunations after the lunation containing the winter solstice for all 30 lunar phases (model).',
+            'Not decided: 29/30-day lengths, abutting across years, year lengths (new-moon series values).', 'DESIGN.md §3 C03'),
+    'C04': ('packed-table necessary conditions + uniform-lunation model of the solstice-month anchoring (thin)',
+            'Only necessary conditions: the stored leap table\'s order/uniqueness/intercalation rhythm, and that LunarMonth::new anchors month numbering on the lunation containing the winter solstice '
+            '(evaluated against a uniform-lunation model for every lunar phase at the solstice, incl. a new moon on the solstice day).',
+            'Whether the table and offsets agree with the library\'s own new-moon and major-term days is a relation between a literal and two float series and is NOT decided.', 'DESIGN.md §3 C04'),
+    'C05': ('structural rules on literals and solver shape (thin): spline continuity at its own knots, table shapes/index bounds, correction-string coverage, solver structure',
+            'TT-UT spline continuous within 5 s at all joins; series tables well-shaped and every loop index in bounds for every term-count argument; fit tables monotone with plausible rates; '
+            'correction strings over {0,1,2} and longer than the largest formable index; last Newton step uses the full series; the day-level solvers fall back to the precise solver within 300 s of civil midnight.',
+            'No accuracy clause of the statement is decided (series values). The series code is evaluated only for index behaviour / at the knots of its own tables.', 'DESIGN.md §3 C05'),
+    'C06': ('sibling-constructor agreement under stubs; carry tables; day->term / instant->term searches evaluated on scenario calendars with modern, Julian-era and far-future term placements',
+            'The two term constructors agree on (year, index, day-level JD) under two series stubs; stepping and constructing by index carry by floor incl. year 0; Jie/Qi parity; every civil day of a year and '
+            'all critical instants are assigned the latest term starting on or before them with day index from 0, for three placements of the term days in the civil months.',
+            'Spacing/ordering of real term instants and the max day index 16 are series values (C05) and not decided.', 'DESIGN.md §3 C06'),
+    'C07': ('residue-class anchor tables; all routes to pillar/weekday evaluated on scenario calendars; Julian-day formulas tabulated per (year, month)',
+            'Pillar = (day number + 49) mod 60 from the lunar date for 320 (first day, day) pairs incl. range ends; weekday = (day number + 1) mod 7; every public route (lunar date, sexagenary day, instant view, civil date) '
+            'agrees and advances by one per day over ~470 consecutive days incl. lunar month ends, year ends and the 1582 cut-over; the civil date->day number link is tabulated for all 119,988 months in both directions.',
+            'Scenario lunar months tile by construction (real tiling is C03).', 'DESIGN.md §3 C07'),
+    'C11': ('per-type sibling checks for 42 cycle types; Euclidean helper table; carry tables for linear units; lunar stepping on a scenario calendar',
+            'Each cycle type is wired to its own name table in both constructors, has Euclidean indices, next() is a group action, name lookup is the inverse of get_name (first match) and unknown names are refused; '
+            'year/half-year/season/month/term carries are floor carries wherever accepted (incl. terms around year 0); lunar month/day/hour stepping obeys next(a).next(b)=next(a+b) on a scenario calendar with two leap months. '
+            'Duplicate names in PHASE_NAMES are a listed known finding.',
+            'Group laws on the real lunar calendar need the real month records (C03).', 'DESIGN.md §3 C11'),
+    'C20': ('festival lookups evaluated on literal tables over the whole key space; lunar festivals on scenario calendars; legal-holiday literal grammar + readers over every date',
+            'Civil festivals over all 366 month-days x founding-year neighbourhoods; by index; carries; lunar festivals by index and by date for 4 scenario calendars (incl. a leap 12th month) with the earlier-listed rule; '
+            'the holiday literal: 13-char grammar, real dates, strictly increasing, offsets land on rest days; from_ymd over every date of the covered years; next(+-1) for every record and longer steps.',
+            'Civil dates of lunar festivals on the real calendar are numeric.', 'DESIGN.md §3 C20'),
 }
 
 PENDING_REASON = 'check not built yet (DESIGN.md gives the planned static clauses); will be claimed once its rule engine exists'
